@@ -202,6 +202,10 @@ func {{.Title}}(a Object, b Object) (Object, error) {
 if a.Type() != b.Type() {
 	return {{ .FailReturn }}, nil
 }
+// object.__{{.Name}}__: objects that do not define the comparison compare by identity
+if same, ok := sameObject(a, b); ok {
+	return NewBool(same == ({{ .FailReturn }} == False)), nil
+}
 {{ end }}
 	return nil, ExceptionNewf(TypeError, "unsupported operand type(s) for {{.Operator}}: '%s' and '%s'", a.Type().Name, b.Type().Name)
 }
